@@ -149,11 +149,30 @@ let () =
     let model = weights_model cfg ds in
     let spec =
       match parts obs with
-      | _csv :: text :: more ->
+      | csv :: text :: more ->
         (match ok_part text, partition_of cfg ds with
          | Some t, Some part ->
-           let (dates, rows) = parse_text_table t in
+           let (dates, rows0) = parse_text_table t in
            let ncols = nat_of_int (List.length dates) in
+           (* a column whose total is zero has weights NaN / +-Inf: the CSV prints them, the text table prints a NaN as
+              a blank cell.  Such columns are outside the statement (shares of a zero total): every cell of a column
+              in which the CSV has a non-finite number is marked non-finite, so that the clauses skip the column *)
+           let bad_cols =
+             (match ok_part csv with
+              | Some ct ->
+                (match csv_rows ct with
+                 | _ :: body ->
+                   List.mapi (fun j _ -> List.exists (fun r ->
+                     match List.nth_opt r (j + 1) with
+                     | Some cell -> cell <> "" && not (finite_number (let c = String.trim cell in
+                         if String.length c > 0 && (c.[0] = '+' || c.[0] = '-') then String.sub c 1 (String.length c - 1) else c))
+                     | None -> false) body) dates
+                 | [] -> List.map (fun _ -> false) dates)
+              | None -> List.map (fun _ -> false) dates) in
+           let mask (rs : K.srow list) : K.srow list =
+             List.map (fun (hd, cells) ->
+               (hd, List.mapi (fun j cell -> if (try List.nth bad_cols j with _ -> false) then Some None else cell) cells)) rs in
+           let rows = mask rows0 in
            (* the table of the same command without -m: the mapping law (group = own folded commodities + members) *)
            let mapping_law = lazy (
              match more with
@@ -161,6 +180,7 @@ let () =
                (match ok_part plain with
                 | Some pt ->
                   let (pdates, prows) = parse_text_table pt in
+                  let prows = mask prows in
                   pdates = dates && (not (universe_prefix_free (kv_of c "uni")) || K.mapping_law_b tol_weight ncols cfg.K.pc_mapping prows rows)
                 | None -> false)
              | _ -> true) in
